@@ -526,6 +526,23 @@ func forgeECKey(t *tape.Tape, curve elliptic.Curve, digest []byte) (*ecdsa.Publi
 		b[0] |= 1
 		return new(big.Int).SetBytes(b)
 	}
+	if size <= 48 && t.Bool(1, 3, "c16.forge.derlike") {
+		// a genuine signature whose fixed-width form begins like a DER
+		// SEQUENCE of the right total length (30 <2n-2> 02 ..): valid r||s
+		// all the same
+		short = func(label string) *big.Int {
+			b := t.Bytes(size, label+".b")
+			if label == "c16.forge.r" {
+				b[0], b[1], b[2] = 0x30, byte(2*size-2), 0x02
+				if t.Bool(1, 2, "c16.forge.derlike.inner") {
+					b[3] = byte(size - 4)
+				}
+			} else {
+				b[0] &= 0x7f
+			}
+			return new(big.Int).SetBytes(b)
+		}
+	}
 	three := big.NewInt(3)
 	for try := 0; try < 40; try++ {
 		r := short("c16.forge.r")
